@@ -962,6 +962,7 @@ func (s *Store[K, V]) Recover(version uint64, reader io.Reader) error {
 	block := &DataBlock[any]{}
 	s.policyMu.Lock()
 	defer s.policyMu.Unlock()
+	metaSeen := false
 	for {
 		// reset block first
 		block.Data = nil
@@ -977,11 +978,17 @@ func (s *Store[K, V]) Recover(version uint64, reader io.Reader) error {
 		}
 
 		reader := bytes.NewReader(block.Data)
+		// the metadata block carries the version and the clock origin: nothing
+		// may be loaded before it has been seen
+		if block.Type != 1 && !metaSeen {
+			return errors.New("metadata block missing")
+		}
 		if block.Type == 255 {
 			break
 		}
 		switch block.Type {
 		case 1: // metadata
+			metaSeen = true
 			metaDecoder := gob.NewDecoder(reader)
 			m := &StoreMeta{}
 			err = metaDecoder.Decode(m)
